@@ -11,6 +11,7 @@ import RbV.Thm.GenSrcShiftAndMasks
 import RbV.Thm.GenSrcHorspoolNew
 import RbV.Thm.GenSrcShiftAndNext
 import RbV.Thm.GenSrcKmpNext
+import RbV.Thm.GenSrcHorspoolNext
 /-!
 # C08 — exact matchers return exactly all occurrences
 
@@ -288,5 +289,28 @@ theorem kmp_next_source_eq_model (p : List Nat) (hp : 0 < p.length) (h64 : p.len
   GenSrcKmpNext.drain_eq_scan p hp h64 fuel rest pre q hmax hb hi hf
 
 example : GenSrcKmpNext.findAllSrc [1, 2, 1] [1, 2, 1, 2, 1] = Rs.Res.ok [0, 2] := by decide
+
+/-- **Horspool end to end on the translated source text**: `Horspool::new(p)`, `.find_all(t)` and `Matches::next` until
+`None`, as written in `horspool.rs` (the `loop` with the inner skip `while`, the checked `last += shift[..]`,
+`last + 1 - m`, the slice comparison `text[i..j] == pattern[..m - 1]`), never panic, never run out of the loop fuel
+`n - last + 1` (every table entry is at least 1) and list exactly the occurrences of `p` in `t`, for every non-empty byte
+pattern and every byte text with `|t| + |p| < 2^64`. -/
+theorem horspool_source_exact (p t : List Nat) (hp : 0 < p.length) (hb : ∀ c ∈ t, c < 256) (hbp : ∀ c ∈ p, c < 256)
+    (h64 : t.length + p.length < 2 ^ 64) : GenSrcHorspoolNext.findAllSrc p t = Rs.Res.ok (occurrences p t) := by
+  rw [GenSrcHorspoolNext.findAllSrc_eq_model p t hp hb hbp h64, horspool_exact p t hp]
+
+/-- one call of the translated `next` from window end `last ≥ m - 1`: no panic; `None` only if the model's walk from `last`
+finds nothing; `Some(i)` with `i` the model's next match, and the model continues from the new `last` (`G` = the mirror
+model's `Horspool.go` with sufficient fuel) -/
+theorem horspool_next_source_eq_model (p t : List Nat) (hp : 0 < p.length) (hb : ∀ c ∈ t, c < 256)
+    (hbp : ∀ c ∈ p, c < 256) (h64 : t.length + p.length < 2 ^ 64) (pl : Nat) (hpl : p[p.length - 1]? = some pl)
+    (last : Nat) (hl : p.length - 1 ≤ last) :
+    ∃ last' r, GenSrcHorspoolNext.nextS p t pl last = Rs.Res.ok (last', r) ∧
+      ((r = none ∧ GenSrcHorspoolNext.G p t last = []) ∨
+       (∃ i, r = some i ∧ last < last' ∧ GenSrcHorspoolNext.G p t last = i :: GenSrcHorspoolNext.G p t last')) :=
+  GenSrcHorspoolNext.next_eq_model p t hp hb hbp h64 pl hpl last hl
+
+example : GenSrcHorspoolNext.findAllSrc [1, 2, 1] [1, 2, 1, 2, 1] = Rs.Res.ok [0, 2] := by
+  rw [horspool_source_exact _ _ (by decide) (by decide) (by decide) (by decide)]; decide
 
 end RbV.Thm.C08
